@@ -240,6 +240,8 @@ where
         // when the end of the input is reached (we return early if an
         // error occurs).
         'shift: loop {
+            #[cfg(feature = "verif")]
+            crate::verif::tick();
             let (mut lookahead, mut token_index) = match self.next_token() {
                 NextToken::FoundToken(l, i) => (l, i),
                 NextToken::Eof => return self.parse_eof(),
@@ -251,6 +253,8 @@ where
             debug!("\\ token_index: {:?}", token_index);
 
             'inner: loop {
+                #[cfg(feature = "verif")]
+                crate::verif::tick();
                 let top_state = self.top_state();
                 let action = self.definition.action(top_state, token_index);
                 debug!("\\ action: {:?}", action);
@@ -293,6 +297,8 @@ where
     /// Invoked when we have no more tokens to consume.
     fn parse_eof(&mut self) -> ParseResult<D> {
         loop {
+            #[cfg(feature = "verif")]
+            crate::verif::tick();
             let top_state = self.top_state();
             let action = self.definition.eof_action(top_state);
             if let Some(reduce_index) = action.as_reduce() {
@@ -338,6 +344,8 @@ where
         // perform all reductions from current state triggered by having
         // ERROR in the lookahead.
         loop {
+            #[cfg(feature = "verif")]
+            crate::verif::tick();
             let state = self.top_state();
             let action = self.definition.error_action(state);
             if let Some(reduce_index) = action.as_reduce() {
@@ -358,6 +366,8 @@ where
         // Now try to find the recovery state.
         let states_len = self.states.len();
         let top = 'find_state: loop {
+            #[cfg(feature = "verif")]
+            crate::verif::tick();
             // Go backwards through the states...
             debug!(
                 "\\\\+ error_recovery: find_state loop, {:?} states = {:?}",
@@ -366,6 +376,8 @@ where
             );
 
             for top in (0..states_len).rev() {
+                #[cfg(feature = "verif")]
+                crate::verif::tick();
                 let state = self.states[top];
                 debug!("\\\\\\ top = {:?}, state = {:?}", top, state);
 
@@ -549,6 +561,8 @@ where
         let mut states = states.to_vec();
         states.push(error_state);
         loop {
+            #[cfg(feature = "verif")]
+            crate::verif::tick();
             let mut states_len = states.len();
             let top = states[states_len - 1];
             let action = match opt_token_index {
